@@ -1,7 +1,7 @@
 """C10: register streaming: ordered, exactly-once, abort on error, stop on cancellation."""
 from lib import apirun
 
-THEOREMS = ["C10_stream", "C10_plan", "C10_no_handler_no_io", "C10_io_only_for_read_registers", "C10_maps"]
+THEOREMS = ["C10_stream", "C10_plan", "C10_no_handler_no_io", "C10_io_only_for_read_registers", "C10_maps", "C10_maps_of_product_lists"]
 
 
 def run(res, args):
